@@ -368,8 +368,17 @@ theorem block_cut_then_P_restores (t : Text) (cur orig : Nat) (vi : Bool) :
 /-- start of the first selected line: `text.rfind("\n", 0, from_) + 1` -/
 def linesFrom (t : Text) (lo : Nat) : Nat := lo - col { text := t, cur := lo }
 
-/-- end of the range of a LINES selection (exclusive) -/
-def linesEnd (t : Text) (hi : Nat) (vi : Bool) : Nat := linesTo t hi + (if vi then 1 else 0)
+/-- `linesEnd` when a newline follows the selection / when none does -/
+theorem linesEnd_some (t : Text) (hi k : Nat) (vi : Bool) (h : findNlFrom t hi = some k) :
+    linesEnd t hi vi = k + (if vi then 1 else 0) := by
+  unfold linesEnd linesEndI
+  simp only [h]
+  cases vi <;> simp
+
+theorem linesEnd_none_vi (t : Text) (hi : Nat) (h : findNlFrom t hi = none) : linesEnd t hi true = t.length := by
+  unfold linesEnd linesEndI
+  simp only [h, if_true]
+  omega
 
 theorem cutSelection_lines_eq' (t : Text) (cur orig : Nat) (vi : Bool) :
     cutSelection t cur orig .lines vi =
@@ -380,8 +389,8 @@ theorem cutSelection_lines_eq' (t : Text) (cur orig : Nat) (vi : Bool) :
        { text := if raw.getLast? = some '\n' ∧ (findNlFrom t (max cur orig)).isSome then raw.dropLast else raw,
          ty := .lines }) := by
   simp only [cutSelection, selectionRanges, cutLoop, if_true, join, List.nil_append, List.drop_zero,
-    true_and, linesTo, linesFrom, linesEnd, sl]
-  cases vi <;> rfl
+    true_and, linesFrom, sl]
+  rfl
 
 /-- **LINES cut fidelity (Vi and Emacs mode).**  What `cut_selection` removes for a LINES selection
     is one contiguous span: the stored text followed by at most the one newline that terminated
@@ -400,8 +409,8 @@ theorem cutSelection_lines_fidelity' (t : Text) (cur orig : Nat) (vi : Bool) (hc
     cases vi with
     | false => exact hle rfl
     | true =>
-      have := linesTo_ge t (max cur orig) (by omega)
-      simp only [linesFrom, linesEnd, if_true]; omega
+      have := linesEnd_ge t (max cur orig) (by omega)
+      simp only [linesFrom]; omega
   have hre := cut_reinsert t _ _ hle' h1
   split
   · rename_i hs
@@ -518,7 +527,8 @@ theorem lines_cut_then_P (t : Text) (cur orig : Nat) (hc : cur ≤ t.length) (ho
       rw [List.drop_of_length_le hge] at hk2
       cases hk2
     have hraw : sl t from_ (linesEnd t (max cur orig) true) = sl t from_ k ++ ['\n'] := by
-      simp only [linesEnd, linesTo, hnl, if_true]
+      rw [linesEnd_some _ _ _ _ hnl]
+      simp only [if_true]
       rw [sl_split t from_ k (k + 1) (by omega) (by omega)]
       congr 1
       have hg : t[k] = '\n' := by
@@ -531,7 +541,7 @@ theorem lines_cut_then_P (t : Text) (cur orig : Nat) (hc : cur ≤ t.length) (ho
     rw [hraw]
     simp only [List.getLast?_append, List.getLast?_singleton, Option.some_or, Option.isSome_some, and_self,
       if_true, List.dropLast_concat]
-    have he : linesEnd t (max cur orig) true = k + 1 := by simp [linesEnd, linesTo, hnl]
+    have he : linesEnd t (max cur orig) true = k + 1 := by rw [linesEnd_some _ _ _ _ hnl]; rfl
     rw [he]
     have := lines_paste_core (t.take from_) (sl t from_ k) (t.drop (k + 1)) hpre
     rw [hplen] at this
@@ -542,7 +552,7 @@ theorem lines_cut_then_P (t : Text) (cur orig : Nat) (hc : cur ≤ t.length) (ho
     rw [e1, ← hk2, List.take_append_drop]
   | none =>
     have he : t.length ≤ linesEnd t (max cur orig) true := by
-      simp only [linesEnd, linesTo, hnl, if_true]; omega
+      rw [linesEnd_none_vi _ _ hnl]; exact Nat.le_refl _
     rw [sl_full _ _ _ he, List.drop_of_length_le he]
     simp only [Option.isSome_none, Bool.false_eq_true, and_false, if_false, List.append_nil]
     have := lines_paste_core (t.take from_) (t.drop from_) [] hpre
